@@ -25,6 +25,9 @@ def run(chk):
     chk.attempt(r03f, chk)
     chk.attempt(r03g, chk)
     chk.attempt(r03h, chk)
+    from .c18 import r18i
+
+    chk.attempt(r18i, chk, 'R03.i')
 
 
 def raw_allowed(nfa_node):
